@@ -1,2 +1,3 @@
 -- Root of the `BindgenModel` library: models, generated tables, lemmas, property theorems.
 import BindgenModel.Model.BitfieldUnit
+import BindgenModel.Model.Post
